@@ -16,10 +16,10 @@ theorem goTy_int (b : Nat) (s : Bool) : goTy (.int b s) = .int b s := by simp [g
 
 /-- an immediate of the fragment: its value at any positive fuel on the `Sem` side, its stable value
     on the Go side, related and of the annotated type -/
-theorem imm_both {env : Env} (P : Prog) {F : GFile} (ht : TyLink env F) {Γ : Ctx} {ρ : Sem.Env} {gρ : GEnv} {i : Imm}
-    (hi : immOK env Γ i = true) (hr : EnvRel env Γ ρ gρ) :
+theorem imm_both {env : Env} {η : Hp} (P : Prog) {F : GFile} (ht : TyLink env F) {Γ : Ctx} {ρ : Sem.Env} {gρ : GEnv} {i : Imm}
+    (hi : immOK env Γ i = true) (hr : EnvRel env η Γ ρ gρ) :
     ∃ v gv, (∀ n w, Sem.eval (n + 1) P ρ w i.toExpr = .ok v w) ∧
-      (∀ gw, EvS F gρ gw (compileImm env i) (.ok gv gw)) ∧ toGV env v = some gv ∧ HasTy env v i.ty := by
+      (∀ gw, EvS F gρ gw (compileImm env i) (.ok gv gw)) ∧ toGV env η v = some gv ∧ HasTy env η v i.ty := by
   cases i with
   | var x ty =>
     simp only [immOK] at hi
@@ -85,14 +85,14 @@ theorem sem_imm_any {P : Prog} {ρ : Sem.Env} {w : World} {e : Expr} {v : Val}
   | succ n => right; exact h n w
 
 /-- argument lists: related and typed position by position -/
-def ArgsRel (env : Env) : List Val → List GVal → List Ty → Prop
+def ArgsRel (env : Env) (η : Hp) : List Val → List GVal → List Ty → Prop
   | [], [], [] => True
-  | v :: vs, g :: gs, t :: ts => toGV env v = some g ∧ HasTy env v t ∧ ArgsRel env vs gs ts
+  | v :: vs, g :: gs, t :: ts => toGV env η v = some g ∧ HasTy env η v t ∧ ArgsRel env η vs gs ts
   | _, _, _ => False
 
-theorem imms_both {env : Env} (P : Prog) {F : GFile} (ht : TyLink env F) {Γ : Ctx} {ρ : Sem.Env} {gρ : GEnv}
-    (hr : EnvRel env Γ ρ gρ) : ∀ {args : List Imm} {tys : List Ty}, argsOK env Γ args tys = true →
-    ∃ vs gvs, ArgsRel env vs gvs tys ∧ (∀ gw, EvLS F gρ gw (compileImms env args) (.ok gvs gw)) ∧
+theorem imms_both {env : Env} {η : Hp} (P : Prog) {F : GFile} (ht : TyLink env F) {Γ : Ctx} {ρ : Sem.Env} {gρ : GEnv}
+    (hr : EnvRel env η Γ ρ gρ) : ∀ {args : List Imm} {tys : List Ty}, argsOK env Γ args tys = true →
+    ∃ vs gvs, ArgsRel env η vs gvs tys ∧ (∀ gw, EvLS F gρ gw (compileImms env args) (.ok gvs gw)) ∧
       (∀ n w, Sem.evalList n P ρ w (args.map Imm.toExpr) = .fail .fuel w ∨
               Sem.evalList n P ρ w (args.map Imm.toExpr) = .ok vs w) := by
   intro args
@@ -130,7 +130,7 @@ theorem imms_both {env : Env} (P : Prog) {F : GFile} (ht : TyLink env F) {Γ : C
             · left; rw [h2]
             · right; rw [h2]
 
-theorem ArgsRel.length {env : Env} {vs gvs tys} (h : ArgsRel env vs gvs tys) : vs.length = tys.length ∧ gvs.length = tys.length := by
+theorem ArgsRel.length {env : Env} {η : Hp} {vs gvs tys} (h : ArgsRel env η vs gvs tys) : vs.length = tys.length ∧ gvs.length = tys.length := by
   induction vs generalizing gvs tys with
   | nil => cases gvs <;> cases tys <;> simp [ArgsRel] at h ⊢
   | cons v vs ih =>
